@@ -146,6 +146,12 @@ def build(rng, profile="full", **kw):
                                 spec["explicit"].insert(len(spec["explicit"]) - 1, {"sec": "bonds", "atoms": [i2, j2], "params": p2})
                                 extra = extra.replace("[ bonds ]\n", "[ bonds ]\n%d %d %s\n" % (i2, j2, " ".join(p2)))
                             break
+                if natoms >= 6 and rng.random() < 0.4:
+                    # the same explicit link also lists a 1-4 style pair between two atoms far apart: not a bond
+                    i3 = rng.randrange(1, natoms - 3)
+                    j3 = rng.randrange(i3 + 3, natoms + 1)
+                    spec["explicit"].append({"sec": "pairs", "atoms": [i3, j3], "params": ["1"]})
+                    extra += "[ pairs ]\n%d %d 1\n" % (i3, j3)
                 files = [(n, (t + extra) if n == "case.ff" else t) for n, t in files]
                 ff_extra = extra
     descr = {"layout": layout, "blocks": [(b["name"], b["syntax"], len(b["atoms"]), b["nrexcl"]) for b in blocks],
